@@ -346,7 +346,7 @@ def run(ctx):
         regen.run(C.REPO)
     except regen.TranslatorError as e:
         gen_problem = str(e)
-    C.build_driver()
+    C.build_driver('dispatch')
     C.proof_step(ctx, ['translator harness/translate_reserved.py (ast -> Sio/Generated/Reserved.lean); the '
                        'lists it emits are compared with the run-time `reserved_events` of the four classes',
                        'handler truthiness (`if handler:`) and the TypeError retry for legacy disconnect '
@@ -420,7 +420,7 @@ def replay(ctx, r):
     import ast as _ast
     case['args'] = _ast.literal_eval(case['args']) if isinstance(case['args'], str) else case['args']
     regen.run(C.REPO)
-    C.build_driver()
+    C.build_driver('dispatch')
     loop = asyncio.new_event_loop()
     try:
         impl, obj, _ = run_impl(case, loop)
